@@ -40,7 +40,7 @@ func c06Sub(w *W) {
 	if w.Choose(simrt.SShape, 6) == 0 {
 		kind = "xsub"
 	}
-	tran := w.simFallback([]string{"inproc", "sim", "simipc", "tcp", "ipc", "tls+tcp"}[w.Choose(simrt.SShape, 6)])
+	tran := w.simFallback([]string{"inproc", "sim", "simipc", "tcp", "ipc", "tls+tcp", "ws", "wss"}[w.Choose(simrt.SShape, 8)])
 	npub := 1 + w.Choose(simrt.SShape, 2)
 	nctx := 1
 	if kind == "sub" {
